@@ -1,4 +1,4 @@
-SPECIFICATION GenSpec
+SPECIFICATION GenSpec2
 CONSTANTS DimSeq <- Dims3 MaskSeq <- Masks17 CliSeq <- Clis1 DestSeq <- NoSeq PathSeq <- NoSeq Toks <- None
   Impl = "c" WithAll = TRUE Acts <- ActsTxt MaxTab = 4
   ItemSet <- ItemsQ MaxItems = 2 GapSet <- Gaps1 EdgeGaps <- Edge01
